@@ -1,12 +1,852 @@
-//! C07 — stub (not built yet).
+//! C07 — bracketing root finders (bisection, Brent, ITP) evaluate only inside the bracket,
+//! terminate within a bounded number of evaluations, and an `Ok` result lies in the bracket with a
+//! sign change of the function (for Brent: or a residual below the tolerance) within the
+//! tolerance of it; same-sign end points, negative tolerances and illegal ITP parameters give `Err`.
+//!
+//! The function handed to the library records every abscissa and enforces an evaluation budget.
+//! The oracle evaluates the *pure* function itself; it shares no code with the solvers.
+
+use crate::json::J;
+use crate::probe::{self, Guarded};
 use crate::report::*;
+use crate::rng::{CaseHash, Rng};
+use bacon_sci::roots::{bisection, brent, itp};
+use std::cell::RefCell;
+
+const EPS: f64 = f64::EPSILON;
+
+// ---------------------------------------------------------------- frozen constants
+/// hard cap of the probe (callback invocations); reaching it means the solver does not terminate
+const PROBE_BUDGET: u64 = 4000;
+/// abscissae may leave [min(a,b), max(a,b)] by this many eps*max(|a|,|b|) (rounding of a secant
+/// point or of x_half - sigma r next to an end point). Observed maximum on the repaired tree:
+/// 2.6 (ITP; bisection and Brent never leave the bracket at all).
+const ABSCISSA_SLACK_EPS: f64 = 16.0;
+/// bisection: evaluations <= ceil(log2(w/tol)) + BIS_EXTRA. Analysis: 2 end points +
+/// max(1, ceil(log2(w/tol))) midpoints. Observed maximum of evals - ceil(log2(w/tol)): 2.
+const BIS_EXTRA: f64 = 4.0;
+/// bisection: evaluations <= n_max + BIS_CAP_EXTRA (2 end points + n_max midpoints). Observed: 2.
+const BIS_CAP_EXTRA: f64 = 3.0;
+/// bisection must return Ok when n_max >= ceil(log2(w/tol)) + BIS_OK_MARGIN
+const BIS_OK_MARGIN: f64 = 3.0;
+/// ITP: evaluations <= n_half + 2 n0 + ITP_EXTRA, n_half = ceil(log2(w/(2 tol))). Analysis: the
+/// documented parametrisation (projection radius tol 2^(n_max + n0 - j) - w_j/2 with
+/// n_max = n_half + n0) halves an upper bound of the bracket per iteration and so needs at most
+/// n_half + 2 n0 iterations, plus the 2 end points. Observed maximum of evals - (n_half + 2 n0): 3.005.
+const ITP_EXTRA: f64 = 6.0;
+/// Brent: evaluations <= (ceil(log2(w/tol)) + 2)^2 + BRENT_EXTRA (Brent's classical bound).
+/// Observed maximum of evals/bound: 0.22 (129 evaluations).
+const BRENT_EXTRA: f64 = 10.0;
+/// the sign change is looked for on [x - tau', x + tau'], tau' = tau (1 + TAU_REL) + 4 eps max(|a|,|b|,1)
+const TAU_REL: f64 = 1e-9;
 
 pub fn meta() -> CheckMeta {
-    CheckMeta { id: "C07", level: "exploration", rule: "stub".into(), assumptions: vec![], exhaustive: false, stuck_is_violation: false }
+    CheckMeta {
+        id: "C07",
+        level: "exploration",
+        rule: "cases: (solver in {bisection, brent, itp}) x G-root1 functions with known root sets (linear, cubic, exp, sin incl. several roots, tanh, (x-r)(1+(x-r)^2), quintic, polynomials with roots inside and outside the bracket; both monotonicities; brackets in either order, asymmetric, straddling 0, near +-100, root at an end point) x tol 1e-12..1e-2 x ITP parameters; plus the complete exact-hit grid (11 dyadic end points squared, roots a+(b-a)j/2^m, m<=4, 4 slopes, 2 shapes, ITP grid k1 in {0.01,0.1,1} x k2 in {1.1,1.5,2,2.5} x n0 in {0,1,2}), the secant-point-equals-midpoint grid (odd functions on symmetric brackets with w/(2 tol) within 3 ulp of a power of two) and the invalid-input classes. A case is non-trivial when the solver needed >= 5 evaluations or when Err is the expected outcome; distinct = distinct hash of (solver, parameters, function, bracket, tolerance)".into(),
+        assumptions: vec![
+            "abscissae may leave the closed bracket by at most 16 eps max(|a|,|b|); the sign change is looked for on [x-tau', x+tau'] cut to the bracket, tau' = tau(1+1e-9) + 4 eps max(|a|,|b|,1), tau = tol max(1,|x|) for bisection, tol for Brent and ITP".into(),
+            "evaluation budgets: bisection ceil(log2(w/tol))+4 and n_max+3; ITP ceil(log2(w/(2 tol)))+2 n0+6; Brent (ceil(log2(w/tol))+2)^2+10".into(),
+            "zero tolerance and ITP k1 = 0 are not exercised (documentation ambiguous); brackets whose end point is a root, and reversed brackets for bisection (documented requirement right > left), may give Err, an Ok is judged like any other".into(),
+        ],
+        exhaustive: false,
+        stuck_is_violation: true,
+    }
 }
-pub fn stages(_ctx: &Ctx) -> Vec<Stage> {
-    vec![]
+
+// ---------------------------------------------------------------- functions with known root sets
+
+#[derive(Clone, Copy, Debug, PartialEq)]
+pub enum Kind {
+    Lin,
+    Cubic,
+    Exp,
+    Sin,
+    Tanh,
+    CubicPlus,
+    Quintic,
+    Poly,
+    NoRoot,
 }
-pub fn thresholds(_ctx: &Ctx, _rep: &Report) -> Vec<Threshold> {
-    vec![Threshold { what: "check not built".into(), required: 1.0, observed: 0.0 }]
+
+#[derive(Clone, Debug)]
+pub struct Func {
+    pub kind: Kind,
+    pub r: f64,
+    pub s: f64,
+    pub c: f64,
+    /// all roots, for `Poly`
+    pub roots: Vec<f64>,
+}
+
+impl Func {
+    fn simple(kind: Kind, r: f64, s: f64, c: f64) -> Func {
+        Func { kind, r, s, c, roots: vec![] }
+    }
+    pub fn eval(&self, x: f64) -> f64 {
+        let d = x - self.r;
+        match self.kind {
+            Kind::Lin => self.s * d,
+            Kind::Cubic => self.s * (d * d * d),
+            Kind::Exp => self.s * ((self.c * d).exp() - 1.0),
+            Kind::Sin => self.s * (self.c * d).sin(),
+            Kind::Tanh => self.s * (self.c * d).tanh(),
+            Kind::CubicPlus => self.s * d * (1.0 + d * d),
+            Kind::Quintic => self.s * (d * d * d * d * d),
+            Kind::Poly => {
+                let mut p = self.s;
+                for ri in &self.roots {
+                    p *= x - ri;
+                }
+                p
+            }
+            Kind::NoRoot => self.s * (d * d + self.c),
+        }
+    }
+    /// distance from x to the nearest root (evidence only; the verdict uses the sign change)
+    pub fn root_distance(&self, x: f64) -> f64 {
+        match self.kind {
+            Kind::Sin => {
+                let p = std::f64::consts::PI / self.c;
+                let d = x - self.r;
+                (d - (d / p).round() * p).abs()
+            }
+            Kind::Poly => self.roots.iter().map(|ri| (x - ri).abs()).fold(f64::INFINITY, f64::min),
+            Kind::NoRoot => f64::INFINITY,
+            _ => (x - self.r).abs(),
+        }
+    }
+    /// does the known root set (all roots have odd multiplicity) meet [xl, xr]?
+    pub fn has_root_in(&self, xl: f64, xr: f64) -> bool {
+        match self.kind {
+            Kind::Sin => {
+                let p = std::f64::consts::PI / self.c;
+                let k = ((xl - self.r) / p).ceil();
+                self.r + k * p <= xr
+            }
+            Kind::Poly => self.roots.iter().any(|ri| *ri >= xl && *ri <= xr),
+            Kind::NoRoot => false,
+            _ => self.r >= xl && self.r <= xr,
+        }
+    }
+    fn formula(&self) -> &'static str {
+        match self.kind {
+            Kind::Lin => "s*(x-r)",
+            Kind::Cubic => "s*(x-r)^3",
+            Kind::Exp => "s*(exp(c*(x-r))-1)",
+            Kind::Sin => "s*sin(c*(x-r))",
+            Kind::Tanh => "s*tanh(c*(x-r))",
+            Kind::CubicPlus => "s*(x-r)*(1+(x-r)^2)",
+            Kind::Quintic => "s*(x-r)^5",
+            Kind::Poly => "s*prod(x-roots[i])",
+            Kind::NoRoot => "s*((x-r)^2+c)",
+        }
+    }
+    fn to_json(&self) -> J {
+        let mut j = J::obj().set("f", self.formula()).set("s", self.s);
+        if self.kind == Kind::Poly {
+            j.put("roots", J::fs(&self.roots));
+        } else {
+            j.put("r", self.r);
+            j.put("c", self.c);
+        }
+        j
+    }
+    fn hash(&self, h: CaseHash) -> CaseHash {
+        h.u(self.kind as u64).f(self.r).f(self.s).f(self.c).fs(&self.roots)
+    }
+}
+
+#[derive(Clone, Copy, Debug)]
+pub enum Solver {
+    Bis { n_max: usize },
+    Brent,
+    Itp { k1: f64, k2: f64, n0: f64 },
+}
+
+impl Solver {
+    fn name(&self) -> &'static str {
+        match self {
+            Solver::Bis { .. } => "bisection",
+            Solver::Brent => "brent",
+            Solver::Itp { .. } => "itp",
+        }
+    }
+}
+
+#[derive(Clone, Copy, Debug, PartialEq)]
+pub enum Expect {
+    /// f(a) f(b) < 0 and all parameters legal: the full oracle applies
+    Valid,
+    /// the property does not say whether Ok or Err (root at an end point, reversed bisection
+    /// bracket): Err is accepted, everything else is judged
+    Lenient,
+    /// Err is required; the tag names the class
+    Err(&'static str),
+}
+
+pub struct Exec<'a> {
+    pub f: &'a Func,
+    pub a: f64,
+    pub b: f64,
+    pub tol: f64,
+    pub solver: Solver,
+    pub expect: Expect,
+}
+
+pub struct Outcome {
+    pub evals: usize,
+    pub ok: bool,
+}
+
+fn ceil_log2(x: f64) -> f64 {
+    if x > 1.0 {
+        x.log2().ceil()
+    } else {
+        0.0
+    }
+}
+
+fn case_json(e: &Exec, log: &[f64], result: &str) -> J {
+    let mut j = J::obj().set("solver", e.solver.name()).set("function", e.f.to_json()).set("a", e.a).set("b", e.b).set("tol", e.tol);
+    match e.solver {
+        Solver::Bis { n_max } => j.put("n_max", n_max),
+        Solver::Brent => {}
+        Solver::Itp { k1, k2, n0 } => {
+            j.put("k1", k1);
+            j.put("k2", k2);
+            j.put("n0", n0);
+        }
+    }
+    j.put("call", match e.solver {
+        Solver::Bis { .. } => "bisection((a,b), f, tol, n_max)",
+        Solver::Brent => "brent((a,b), f, tol)",
+        Solver::Itp { .. } => "itp((a,b), f, k1, k2, n0, tol)",
+    });
+    j.put("evaluations", log.len());
+    j.put("first_abscissae", J::fs(&log[..log.len().min(12)]));
+    if log.len() > 12 {
+        j.put("last_abscissae", J::fs(&log[log.len() - 4..]));
+    }
+    j.put("result", result);
+    j
+}
+
+/// Run one solver on one problem and judge it.
+pub fn run_exec(rep: &mut Report, e: &Exec) -> Outcome {
+    let name = e.solver.name();
+    let log = RefCell::new(Vec::<f64>::with_capacity(64));
+    probe::begin(PROBE_BUDGET);
+    let f = e.f;
+    let g = |x: f64| {
+        log.borrow_mut().push(x);
+        probe::tick_or_panic();
+        f.eval(x)
+    };
+    let (a, b, tol) = (e.a, e.b, e.tol);
+    let res = probe::guard(|| match e.solver {
+        Solver::Bis { n_max } => bisection((a, b), g, tol, n_max),
+        Solver::Brent => brent((a, b), g, tol),
+        Solver::Itp { k1, k2, n0 } => itp((a, b), g, k1, k2, n0, tol),
+    });
+    rep.eval();
+    let log = log.into_inner();
+    let evals = log.len();
+    rep.count(&format!("{}/runs", name), 1);
+    let result_str = match &res {
+        Guarded::Ok(Ok(x)) => format!("Ok({:e})", x),
+        Guarded::Ok(Err(m)) => format!("Err({})", m),
+        Guarded::Budget => format!("evaluation budget of {} exhausted", PROBE_BUDGET),
+        Guarded::Panic(m, l) => format!("panic '{}' at {}", m, l),
+    };
+    let cj = || case_json(e, &log, &result_str);
+    let mut out = Outcome { evals, ok: matches!(res, Guarded::Ok(Ok(_))) };
+
+    // ---- outcomes no class tolerates
+    match &res {
+        Guarded::Panic(m, l) => {
+            rep.violation(&format!("{}/panic", name), cj(), format!("{} panicked: '{}' at {}", name, m, l));
+            return out;
+        }
+        Guarded::Budget => {
+            rep.violation(&format!("{}/no-termination", name), cj(), format!("{} was still evaluating the function after {} evaluations", name, PROBE_BUDGET));
+            return out;
+        }
+        _ => {}
+    }
+
+    // ---- invalid input: Err required
+    if let Expect::Err(class) = e.expect {
+        rep.count(&format!("{}/err_expected/{}", name, class), 1);
+        if let Guarded::Ok(Ok(x)) = &res {
+            rep.violation(&format!("{}/ok-on-{}", name, class), cj(), format!("{} returned Ok({:e}) for invalid input ({}); Err is required", name, x, class));
+        }
+        out.ok = false;
+        return out;
+    }
+
+    let lo = a.min(b);
+    let hi = a.max(b);
+    let w = hi - lo;
+    let mag = lo.abs().max(hi.abs());
+    let slack = ABSCISSA_SLACK_EPS * EPS * mag;
+    let strict = e.expect == Expect::Valid;
+    rep.count(&format!("{}/{}", name, if strict { "valid_runs" } else { "lenient_runs" }), 1);
+
+    // ---- (i) every abscissa in the closed bracket
+    for (i, x) in log.iter().enumerate() {
+        if x.is_nan() {
+            rep.violation(&format!("{}/nan-abscissa", name), cj(), format!("evaluation {} is at NaN", i));
+            return out;
+        }
+        let excess = (lo - *x).max(*x - hi);
+        if excess > 0.0 {
+            rep.max(&format!("{}/abscissa_excess_in_eps_mag", name), excess / (EPS * mag.max(f64::MIN_POSITIVE)));
+        }
+        if !(*x >= lo - slack && *x <= hi + slack) {
+            rep.violation(&format!("{}/outside-bracket", name), cj(), format!("evaluation {} is at {:e}, outside [{:e}, {:e}]", i, x, lo, hi));
+            return out;
+        }
+    }
+    rep.max(&format!("{}/evals", name), evals as f64);
+
+    // ---- (ii) evaluation budgets
+    let l_tol = ceil_log2(w / tol);
+    match e.solver {
+        Solver::Bis { n_max } => {
+            rep.max("bisection/evals_minus_ceil_log2(w/tol)", evals as f64 - l_tol);
+            rep.max("bisection/evals_minus_n_max", evals as f64 - n_max as f64);
+            let bound = (l_tol + BIS_EXTRA).min(n_max as f64 + BIS_CAP_EXTRA);
+            if !(evals as f64 <= bound) {
+                rep.violation("bisection/evaluation-budget", cj(), format!("{} evaluations, bound min(ceil(log2(w/tol))+{} = {}, n_max+{} = {})", evals, BIS_EXTRA, l_tol + BIS_EXTRA, BIS_CAP_EXTRA, n_max as f64 + BIS_CAP_EXTRA));
+                return out;
+            }
+        }
+        Solver::Brent => {
+            let bound = (l_tol + 2.0) * (l_tol + 2.0) + BRENT_EXTRA;
+            rep.max("brent/evals_over_bound", evals as f64 / bound);
+            if !(evals as f64 <= bound) {
+                rep.violation("brent/evaluation-budget", cj(), format!("{} evaluations, bound (ceil(log2(w/tol))+2)^2+{} = {}", evals, BRENT_EXTRA, bound));
+                return out;
+            }
+        }
+        Solver::Itp { n0, .. } => {
+            let n_half = ceil_log2(w / (2.0 * tol));
+            rep.max("itp/evals_minus_(n_half+2n0)", evals as f64 - n_half - 2.0 * n0);
+            let bound = n_half + 2.0 * n0 + ITP_EXTRA;
+            if !(evals as f64 <= bound) {
+                rep.violation("itp/evaluation-budget", cj(), format!("{} evaluations, bound ceil(log2(w/(2 tol)))+2 n0+{} = {}", evals, ITP_EXTRA, bound));
+                return out;
+            }
+        }
+    }
+
+    // ---- (iii)/(iv) the result
+    match res {
+        Guarded::Ok(Err(msg)) => {
+            rep.count(&format!("{}/err_results", name), 1);
+            if strict {
+                let must_ok = match e.solver {
+                    Solver::Bis { n_max } => n_max as f64 >= l_tol + BIS_OK_MARGIN,
+                    _ => true,
+                };
+                if must_ok {
+                    rep.violation(&format!("{}/err-on-valid-bracket", name), cj(), format!("valid bracket (f(a) f(b) < 0) and legal parameters, but the result is Err({})", msg));
+                } else {
+                    rep.count("bisection/err_with_small_n_max", 1);
+                }
+            }
+        }
+        Guarded::Ok(Ok(x)) => {
+            if !x.is_finite() {
+                rep.violation(&format!("{}/non-finite-result", name), cj(), format!("Ok({}) is not a number in the bracket", x));
+                return out;
+            }
+            if !(x >= lo - slack && x <= hi + slack) {
+                rep.violation(&format!("{}/result-outside-bracket", name), cj(), format!("Ok({:e}) lies outside [{:e}, {:e}]", x, lo, hi));
+                return out;
+            }
+            let tau = match e.solver {
+                Solver::Bis { .. } => tol * x.abs().max(1.0),
+                _ => tol,
+            };
+            let taup = tau * (1.0 + TAU_REL) + 4.0 * EPS * mag.max(1.0);
+            let xl = (x - taup).max(lo);
+            let xr = (x + taup).min(hi);
+            let fl = e.f.eval(xl);
+            let fr = e.f.eval(xr);
+            // a sign change inside the window: different signs at its ends, or (window wider than the
+            // root spacing) a constructed root of odd multiplicity inside it
+            let sign_change = fl == 0.0 || fr == 0.0 || ((fl < 0.0) != (fr < 0.0)) || e.f.has_root_in(xl, xr);
+            let fx = e.f.eval(x);
+            let residual_exit = matches!(e.solver, Solver::Brent) && fx.abs() < tol;
+            let dist = e.f.root_distance(x);
+            if sign_change {
+                rep.max(&format!("{}/root_distance_over_tau", name), dist / tau);
+            } else if residual_exit {
+                rep.count("brent/accepted_on_residual_only", 1);
+            }
+            if fx == 0.0 {
+                rep.count(&format!("{}/result_exactly_on_root", name), 1);
+            }
+            if !(sign_change || residual_exit) {
+                rep.violation(
+                    &format!("{}/no-sign-change-within-tol", name),
+                    cj(),
+                    format!("Ok({:.17e}): f has the same sign at {:.17e} ({:e}) and {:.17e} ({:e}); nearest root is {:e} away, tau = {:e}, f(x) = {:e}", x, xl, fl, xr, fr, dist, tau, fx),
+                );
+                return out;
+            }
+        }
+        _ => {}
+    }
+    if let Solver::Itp { .. } = e.solver {
+        if log.len() > 2 && log[2..].iter().any(|x| e.f.eval(*x) == 0.0) {
+            rep.count("itp/runs_with_an_iterate_exactly_on_the_root", 1);
+        }
+        if e.f.eval(a) == -e.f.eval(b) {
+            rep.count("itp/runs_with_f(a)=-f(b)", 1);
+        }
+    }
+    out
+}
+
+fn exec_hash(e: &Exec) -> u64 {
+    let mut h = CaseHash::new("c07").s(e.solver.name());
+    match e.solver {
+        Solver::Bis { n_max } => h = h.u(n_max as u64),
+        Solver::Brent => {}
+        Solver::Itp { k1, k2, n0 } => h = h.f(k1).f(k2).f(n0),
+    }
+    e.f.hash(h).f(e.a).f(e.b).f(e.tol).0
+}
+
+/// run + non-trivial bookkeeping + samples
+fn run_and_note(rep: &mut Report, e: &Exec) {
+    let out = run_exec(rep, e);
+    let nontrivial = out.evals >= 5 || matches!(e.expect, Expect::Err(_));
+    if nontrivial {
+        rep.nontrivial(exec_hash(e));
+        if rep.wants_sample() && (rep.cur_index % 7 == 3 || rep.cur_index < 2) {
+            let mut j = J::obj().set("solver", e.solver.name()).set("function", e.f.to_json()).set("a", e.a).set("b", e.b).set("tol", e.tol).set("expect", format!("{:?}", e.expect)).set("evaluations", out.evals).set("returned_ok", out.ok);
+            if let Solver::Itp { k1, k2, n0 } = e.solver {
+                j.put("itp_parameters", J::fs(&[k1, k2, n0]));
+            }
+            if let Solver::Bis { n_max } = e.solver {
+                j.put("n_max", n_max);
+            }
+            rep.sample(j);
+        }
+    }
+}
+
+fn classify(f: &Func, a: f64, b: f64) -> Option<Expect> {
+    let fa = f.eval(a);
+    let fb = f.eval(b);
+    if fa == 0.0 || fb == 0.0 {
+        Some(Expect::Lenient)
+    } else if (fa < 0.0) != (fb < 0.0) {
+        Some(Expect::Valid)
+    } else {
+        None
+    }
+}
+
+// ---------------------------------------------------------------- G-root1 random generator
+
+pub struct Problem {
+    pub f: Func,
+    pub a: f64,
+    pub b: f64,
+    pub end_root: bool,
+}
+
+fn gen_centre(rng: &mut Rng) -> f64 {
+    match rng.below(8) {
+        0 => rng.r(-3.0, 3.0) + 100.0,
+        1 => rng.r(-3.0, 3.0) - 100.0,
+        2 => 0.0,
+        _ => rng.r(-3.0, 3.0),
+    }
+}
+
+pub fn gen_problem(rng: &mut Rng) -> Problem {
+    let r = gen_centre(rng);
+    let s = rng.sign() * rng.r(0.2, 3.0);
+    let c = rng.r(0.2, 3.0);
+    let kinds = [Kind::Lin, Kind::Lin, Kind::Cubic, Kind::Exp, Kind::Exp, Kind::Sin, Kind::Sin, Kind::Tanh, Kind::CubicPlus, Kind::Quintic, Kind::Poly, Kind::Poly, Kind::Poly];
+    let kind = *rng.pick(&kinds);
+    let mut end_root = false;
+    let (f, mut a, mut b);
+    match kind {
+        Kind::Poly => {
+            let n = 2 + rng.below(4);
+            let mut roots = vec![0.0; n];
+            let mut x = 0.0;
+            for ri in roots.iter_mut() {
+                *ri = x;
+                x += rng.r(0.3, 1.5);
+            }
+            let shift = r - roots[rng.below(n)];
+            for ri in roots.iter_mut() {
+                *ri += shift;
+            }
+            // an odd number of consecutive roots inside
+            let cnt = if n >= 3 && rng.bool() { 3 } else { 1 };
+            let i = rng.below(n - cnt + 1);
+            let j = i + cnt - 1;
+            let gl = if i == 0 { 1.5 } else { roots[i] - roots[i - 1] };
+            let gr = if j == n - 1 { 1.5 } else { roots[j + 1] - roots[j] };
+            a = roots[i] - gl * rng.r(0.05, 0.95);
+            b = roots[j] + gr * rng.r(0.05, 0.95);
+            f = Func { kind, r, s, c, roots };
+        }
+        Kind::Sin if rng.bool() => {
+            // several roots of sin inside: ka + kb + 1 of them, odd
+            let (ka, kb) = *rng.pick(&[(0.0, 0.0), (1.0, 1.0), (0.0, 2.0), (2.0, 0.0), (2.0, 2.0), (1.0, 3.0)]);
+            let p = std::f64::consts::PI / c;
+            a = r - (ka + rng.r(0.05, 0.95)) * p;
+            b = r + (kb + rng.r(0.05, 0.95)) * p;
+            f = Func::simple(kind, r, s, c);
+        }
+        _ => {
+            let maxw: f64 = if kind == Kind::Sin { 3.0 / c } else { 4.0 };
+            a = r - rng.log10(-2.0, maxw.log10());
+            b = r + rng.log10(-2.0, maxw.log10());
+            if rng.below(8) == 0 {
+                end_root = true;
+                if rng.bool() {
+                    a = r;
+                } else {
+                    b = r;
+                }
+            }
+            f = Func::simple(kind, r, s, c);
+        }
+    }
+    if rng.bool() {
+        std::mem::swap(&mut a, &mut b);
+    }
+    Problem { f, a, b, end_root }
+}
+
+fn gen_itp_params(rng: &mut Rng) -> (f64, f64, f64) {
+    let k1 = rng.log10(-3.0, 1.0);
+    // k2 = 2 is the value recommended by the method's authors and used in the crate's documentation
+    let k2 = if rng.below(4) == 0 { 2.0 } else { rng.r(1.001, 2.617) };
+    let n0 = if rng.bool() { rng.below(4) as f64 } else { rng.r(0.0, 3.0) };
+    (k1, k2, n0)
+}
+
+fn random_case(rng: &mut Rng, rep: &mut Report) {
+    let p = gen_problem(rng);
+    let tol = rng.log10(-12.0, -2.0);
+    let expect = match classify(&p.f, p.a, p.b) {
+        Some(e) => e,
+        None => {
+            rep.harness_errors.push(format!("C07 generator produced a bracket without sign change: {:?} a={:e} b={:e}", p.f, p.a, p.b));
+            return;
+        }
+    };
+    if p.end_root {
+        rep.count("problems/root_at_an_end_point", 1);
+    }
+    if p.f.kind != Kind::Poly && p.f.kind != Kind::Sin {
+        rep.count(if p.f.s > 0.0 { "problems/increasing" } else { "problems/decreasing" }, 1);
+    }
+    if p.a.abs() > 50.0 {
+        rep.count("problems/bracket_near_+-100", 1);
+    }
+    if p.a.min(p.b) < 0.0 && p.a.max(p.b) > 0.0 {
+        rep.count("problems/bracket_straddles_zero", 1);
+    }
+    if p.a > p.b {
+        rep.count("problems/bracket_given_in_descending_order", 1);
+    }
+    // bisection: documented requirement left < right; a reversed bracket is passed through now and then
+    let lo = p.a.min(p.b);
+    let hi = p.a.max(p.b);
+    let l = ceil_log2((hi - lo) / tol);
+    let big_cap = rng.below(5) != 0;
+    let n_max = if big_cap { (l + BIS_OK_MARGIN) as usize + rng.below(30) } else { rng.below(l as usize + 3) };
+    if p.a > p.b && rng.below(6) == 0 {
+        run_and_note(rep, &Exec { f: &p.f, a: p.a, b: p.b, tol, solver: Solver::Bis { n_max }, expect: Expect::Lenient });
+        rep.count("bisection/reversed_bracket_runs", 1);
+    } else {
+        run_and_note(rep, &Exec { f: &p.f, a: lo, b: hi, tol, solver: Solver::Bis { n_max }, expect });
+    }
+    run_and_note(rep, &Exec { f: &p.f, a: p.a, b: p.b, tol, solver: Solver::Brent, expect });
+    let (k1, k2, n0) = gen_itp_params(rng);
+    run_and_note(rep, &Exec { f: &p.f, a: p.a, b: p.b, tol, solver: Solver::Itp { k1, k2, n0 }, expect });
+}
+
+// ---------------------------------------------------------------- invalid input
+
+fn invalid_case(rng: &mut Rng, rep: &mut Report, i: u64) {
+    let class = i % 8;
+    let tol = rng.log10(-12.0, -2.0);
+    let (k1, k2, n0) = gen_itp_params(rng);
+    match class {
+        0 | 1 | 2 => {
+            // same-sign end values: no root at all / bracket beside the root / two roots inside
+            let r = gen_centre(rng);
+            let s = rng.sign() * rng.r(0.2, 3.0);
+            let (f, a, b) = match class {
+                0 => (Func::simple(Kind::NoRoot, r, s, rng.log10(-3.0, 1.0)), r - rng.r(0.0, 3.0), r + rng.r(0.01, 3.0)),
+                1 => {
+                    let kind = *rng.pick(&[Kind::Lin, Kind::Cubic, Kind::Exp, Kind::Tanh, Kind::CubicPlus, Kind::Quintic]);
+                    let side = rng.sign();
+                    let d0 = rng.log10(-3.0, 0.3);
+                    let d1 = d0 + rng.log10(-2.0, 0.5);
+                    (Func::simple(kind, r, s, rng.r(0.2, 3.0)), r + side * d0, r + side * d1)
+                }
+                _ => {
+                    let g = rng.r(0.3, 1.5);
+                    let mut roots = vec![r, r + g];
+                    if rng.bool() {
+                        roots.push(r + g + rng.r(0.8, 1.5));
+                    }
+                    (Func { kind: Kind::Poly, r, s, c: 1.0, roots }, r - rng.r(0.05, 0.9), r + g + rng.r(0.05, 0.7))
+                }
+            };
+            let (fa, fb) = (f.eval(a), f.eval(b));
+            if !(fa * fb > 0.0) {
+                rep.harness_errors.push(format!("C07 same-sign generator failed: {:?} a={:e} b={:e}", f, a, b));
+                return;
+            }
+            let (lo, hi) = (a.min(b), a.max(b));
+            let (a, b) = if rng.bool() { (lo, hi) } else { (hi, lo) };
+            run_and_note(rep, &Exec { f: &f, a: lo, b: hi, tol, solver: Solver::Bis { n_max: 100 }, expect: Expect::Err("same-sign-end-values") });
+            run_and_note(rep, &Exec { f: &f, a, b, tol, solver: Solver::Brent, expect: Expect::Err("same-sign-end-values") });
+            run_and_note(rep, &Exec { f: &f, a, b, tol, solver: Solver::Itp { k1, k2, n0 }, expect: Expect::Err("same-sign-end-values") });
+        }
+        3 => {
+            // negative tolerance on an otherwise valid problem
+            let p = gen_problem(rng);
+            if classify(&p.f, p.a, p.b) != Some(Expect::Valid) {
+                rep.count("invalid/skipped_end_root_problem", 1);
+                return;
+            }
+            let (lo, hi) = (p.a.min(p.b), p.a.max(p.b));
+            let nt = -tol;
+            run_and_note(rep, &Exec { f: &p.f, a: lo, b: hi, tol: nt, solver: Solver::Bis { n_max: 10 + rng.below(90) }, expect: Expect::Err("negative-tolerance") });
+            run_and_note(rep, &Exec { f: &p.f, a: p.a, b: p.b, tol: nt, solver: Solver::Brent, expect: Expect::Err("negative-tolerance") });
+            run_and_note(rep, &Exec { f: &p.f, a: p.a, b: p.b, tol: nt, solver: Solver::Itp { k1, k2, n0 }, expect: Expect::Err("negative-tolerance") });
+        }
+        _ => {
+            let p = gen_problem(rng);
+            if classify(&p.f, p.a, p.b) != Some(Expect::Valid) {
+                rep.count("invalid/skipped_end_root_problem", 1);
+                return;
+            }
+            let (solver, tag) = match class {
+                4 => (Solver::Itp { k1: -rng.log10(-3.0, 1.0), k2, n0 }, "negative-k1"),
+                5 => (Solver::Itp { k1, k2: *rng.pick(&[1.0, 0.999, 0.5, 0.0, -1.0, -2.5]), n0 }, "k2-not-above-1"),
+                6 => (Solver::Itp { k1, k2: *rng.pick(&[2.6181, 2.62, 2.7, 3.0, 10.0, 1e6]), n0 }, "k2-not-below-1+golden-ratio"),
+                _ => {
+                    let v = rng.r(0.0, 3.0) + 1e-9;
+                    (Solver::Itp { k1, k2, n0: -*rng.pick(&[1.0, 2.0, 0.5, 1e-3, 10.0, v]) }, "negative-n0")
+                }
+            };
+            run_and_note(rep, &Exec { f: &p.f, a: p.a, b: p.b, tol, solver, expect: Expect::Err(tag) });
+        }
+    }
+}
+
+// ---------------------------------------------------------------- exact-hit grid
+
+const DY: [f64; 11] = [-2.0, -1.0, -0.5, 0.0, 0.25, 0.5, 1.0, 1.5, 2.0, 3.0, 4.0];
+const SLOPES: [f64; 4] = [1.0, -1.0, 2.0, -0.5];
+const GRID_K1: [f64; 3] = [0.01, 0.1, 1.0];
+const GRID_K2: [f64; 4] = [1.1, 1.5, 2.0, 2.5];
+const GRID_N0: [f64; 3] = [0.0, 1.0, 2.0];
+
+/// (m, j) with 1 <= j < 2^m, m <= m_max
+fn mj_list(m_max: u32) -> Vec<(u32, u32)> {
+    let mut v = vec![];
+    for m in 1..=m_max {
+        for j in 1..(1u32 << m) {
+            v.push((m, j));
+        }
+    }
+    v
+}
+
+fn exact_hit_case(rep: &mut Report, i: u64, mj: &[(u32, u32)], tols: &[f64], offsets: &[f64]) {
+    let mut k = i;
+    let pair = (k % 110) as usize;
+    k /= 110;
+    let (m, j) = mj[(k % mj.len() as u64) as usize];
+    k /= mj.len() as u64;
+    let s = SLOPES[(k % 4) as usize];
+    k /= 4;
+    let shape = k % 2;
+    let ia = pair / 10;
+    let mut ib = pair % 10;
+    if ib >= ia {
+        ib += 1;
+    }
+    for off in offsets {
+        let a = DY[ia] + off;
+        let b = DY[ib] + off;
+        let r = a + (b - a) * j as f64 / (1u32 << m) as f64;
+        let f = Func::simple(if shape == 0 { Kind::Lin } else { Kind::CubicPlus }, r, s, 1.0);
+        let expect = match classify(&f, a, b) {
+            Some(Expect::Valid) => Expect::Valid,
+            _ => {
+                rep.harness_errors.push(format!("C07 exact-hit grid: invalid bracket a={} b={} r={}", a, b, r));
+                return;
+            }
+        };
+        rep.count("exact_hit/problems", 1);
+        for &tol in tols {
+            if a < b {
+                let l = ceil_log2((b - a) / tol);
+                run_and_note(rep, &Exec { f: &f, a, b, tol, solver: Solver::Bis { n_max: (l + BIS_OK_MARGIN) as usize }, expect });
+            }
+            run_and_note(rep, &Exec { f: &f, a, b, tol, solver: Solver::Brent, expect });
+            for k1 in GRID_K1 {
+                for k2 in GRID_K2 {
+                    for n0 in GRID_N0 {
+                        run_and_note(rep, &Exec { f: &f, a, b, tol, solver: Solver::Itp { k1, k2, n0 }, expect });
+                    }
+                }
+            }
+        }
+    }
+}
+
+// ---------------------------------------------------------------- secant point == midpoint grid
+
+const MID_C: [f64; 10] = [1.0, 1.024, 0.3, 0.7, 1.1, 2.5, 3.0, 0.1, 5.0, 1.7];
+const MID_R: [f64; 5] = [0.0, 1.0, -2.0, 0.5, 100.0];
+const MID_K: u64 = 40;
+const MID_KINDS: [Kind; 6] = [Kind::Lin, Kind::Cubic, Kind::Sin, Kind::Tanh, Kind::CubicPlus, Kind::Quintic];
+
+/// Odd functions about the middle of a symmetric bracket (f(a) = -f(b): the secant point is the
+/// midpoint) with w/(2 tol) within a few ulp of a power of two, where the rounding of the
+/// projection radius decides the sign of a quantity that is zero in exact arithmetic.
+fn midpoint_case(rep: &mut Report, i: u64, n_c: usize) {
+    let c = MID_C[(i % n_c as u64) as usize];
+    let r = MID_R[((i / n_c as u64) % 5) as usize];
+    let k = 1 + (i / (n_c as u64 * 5)) % MID_K;
+    let (a, b) = (r - c, r + c);
+    let w = b - a;
+    let t0 = w / 2f64.powi(k as i32 + 1);
+    for du in -3i64..=3 {
+        let tol = f64::from_bits((t0.to_bits() as i64 + du) as u64);
+        if !(tol >= 1e-12 && tol <= 1e-2) {
+            rep.count("midpoint/skipped_tolerance_out_of_range", 1);
+            continue;
+        }
+        for kind in MID_KINDS {
+            for s in [1.0, -1.0, 2.0] {
+                let f = Func::simple(kind, r, s, 1.0);
+                let expect = match classify(&f, a, b) {
+                    Some(e) => e,
+                    None => {
+                        // sin on a bracket wider than its period: not a valid member
+                        rep.count("midpoint/skipped_no_sign_change", 1);
+                        continue;
+                    }
+                };
+                for n0 in [0.0, 1.0] {
+                    for (x0, x1) in [(a, b), (b, a)] {
+                        run_and_note(rep, &Exec { f: &f, a: x0, b: x1, tol, solver: Solver::Itp { k1: 0.1, k2: 2.0, n0 }, expect });
+                    }
+                }
+                run_and_note(rep, &Exec { f: &f, a: b, b: a, tol, solver: Solver::Brent, expect });
+                let l = ceil_log2(w / tol);
+                run_and_note(rep, &Exec { f: &f, a, b, tol, solver: Solver::Bis { n_max: (l + BIS_OK_MARGIN) as usize }, expect });
+            }
+        }
+    }
+}
+
+// ---------------------------------------------------------------- fixed anchors
+
+fn anchor_case(rep: &mut Report, i: u64) {
+    // hand-picked problems: the pinned-tree failures quoted in the property text and friendly classics
+    let lin = |r: f64, s: f64| Func::simple(Kind::Lin, r, s, 1.0);
+    let problems: Vec<(Func, f64, f64)> = vec![
+        (lin(0.9, 1.0), -1.0, 3.0),
+        (lin(1.5, 1.0), 1.0, 2.0),
+        (lin(1.5, -1.0), 1.0, 2.0),
+        (Func::simple(Kind::Cubic, 0.0, 1.0, 1.0), -1.0, 2.0),
+        (Func::simple(Kind::Sin, std::f64::consts::FRAC_PI_2, -1.0, 1.0), 0.0, 3.0),
+        (lin(100.3, 1.0), 100.0, 101.0),
+        (lin(-100.3, -2.0), -101.0, -100.0),
+        (Func::simple(Kind::Exp, 5f64.ln(), 1.0, 1.0), 0.0, 4.0),
+        (Func::simple(Kind::Exp, 5f64.ln(), -1.0, 1.0), 0.0, 4.0),
+        (lin(0.5, -1.0), 0.0, 1.0),
+        (Func::simple(Kind::Cubic, 0.3, 1.0, 1.0), -1.0, 1.0),
+        (Func::simple(Kind::Quintic, 0.3, -1.0, 1.0), -1.0, 1.0),
+        (Func { kind: Kind::Poly, r: 0.0, s: 1.0, c: 1.0, roots: vec![-1.5, 0.25, 1.0, 2.5] }, -0.5, 0.5),
+        (Func { kind: Kind::Poly, r: 0.0, s: -1.0, c: 1.0, roots: vec![-1.5, 0.25, 1.0, 2.5] }, -2.0, 2.0),
+        (lin(1.0, 1.0), 0.8976, 1.1024),
+        (lin(0.0, 1.0), -1.0, 1.0),
+    ];
+    let tols = [1e-2, 1e-4, 1e-8, 1e-12];
+    let (f, a, b) = &problems[(i as usize) % problems.len()];
+    let tol = tols[(i as usize / problems.len()) % tols.len()];
+    let expect = classify(f, *a, *b).unwrap_or(Expect::Lenient);
+    let l = ceil_log2((b - a).abs() / tol);
+    run_and_note(rep, &Exec { f, a: *a, b: *b, tol, solver: Solver::Bis { n_max: (l + BIS_OK_MARGIN) as usize }, expect });
+    for (x0, x1) in [(*a, *b), (*b, *a)] {
+        run_and_note(rep, &Exec { f, a: x0, b: x1, tol, solver: Solver::Brent, expect });
+        for n0 in [0.0, 1.0] {
+            run_and_note(rep, &Exec { f, a: x0, b: x1, tol, solver: Solver::Itp { k1: 0.1, k2: 2.0, n0 }, expect });
+            run_and_note(rep, &Exec { f, a: x0, b: x1, tol, solver: Solver::Itp { k1: 0.2, k2: 2.0, n0 }, expect });
+        }
+    }
+}
+
+// ---------------------------------------------------------------- stages
+
+pub fn stages(ctx: &Ctx) -> Vec<Stage> {
+    let seed = ctx.seed;
+    let tier = ctx.tier;
+    let mut st = vec![];
+    st.push(Stage::new("anchors", 16 * 4, move |i, rep| anchor_case(rep, i)));
+    st.push(Stage::new("invalid", tier.pick(20_000, 200_000), move |i, rep| {
+        // the first 800 cases are seed independent
+        let mut rng = if i < 800 { Rng::for_case(777, "c07-invalid-anchor", i) } else { Rng::for_case(seed, "c07-invalid", i) };
+        invalid_case(&mut rng, rep, i);
+    }));
+    st.push(Stage::new("random", tier.pick(100_000, 1_000_000), move |i, rep| {
+        let mut rng = Rng::for_case(seed, "c07-random", i);
+        random_case(&mut rng, rep);
+    }));
+    // exact-hit grid: complete in both tiers; thorough adds m <= 6, more tolerances, and the same
+    // grid translated by 64 (dyadic, far from zero)
+    let mj = mj_list(tier.pick(4, 6));
+    let tols: Vec<f64> = tier.pick(vec![1e-3, 1e-8], vec![1e-2, 1e-3, 1e-5, 1e-8, 1e-12, 2f64.powi(-10), 2f64.powi(-30)]);
+    let offsets: Vec<f64> = tier.pick(vec![0.0], vec![0.0, 64.0]);
+    let n_grid = 110 * mj.len() as u64 * 4 * 2;
+    st.push(Stage::new("exact-hit", n_grid, move |i, rep| exact_hit_case(rep, i, &mj, &tols, &offsets)));
+    let n_c = 10usize;
+    st.push(Stage::new("midpoint", n_c as u64 * 5 * MID_K, move |i, rep| midpoint_case(rep, i, n_c)));
+    st
+}
+
+pub fn thresholds(ctx: &Ctx, rep: &Report) -> Vec<Threshold> {
+    let q = |a: f64, b: f64| ctx.tier.pick(a, b);
+    let mut t = vec![];
+    for s in ["bisection", "brent", "itp"] {
+        t.push(Threshold { what: format!("{}: runs on valid brackets judged by the full oracle", s), required: q(100_000.0, 800_000.0), observed: rep.counter(&format!("{}/valid_runs", s)) as f64 });
+        t.push(Threshold { what: format!("{}: same-sign brackets (Err expected)", s), required: q(6_000.0, 60_000.0), observed: rep.counter(&format!("{}/err_expected/same-sign-end-values", s)) as f64 });
+        t.push(Threshold { what: format!("{}: negative tolerance (Err expected)", s), required: q(1_800.0, 18_000.0), observed: rep.counter(&format!("{}/err_expected/negative-tolerance", s)) as f64 });
+    }
+    for c in ["negative-k1", "k2-not-above-1", "k2-not-below-1+golden-ratio", "negative-n0"] {
+        t.push(Threshold { what: format!("itp: {} (Err expected)", c), required: q(1_800.0, 18_000.0), observed: rep.counter(&format!("itp/err_expected/{}", c)) as f64 });
+    }
+    t.push(Threshold { what: "itp runs in which an iterate landed exactly on the root".into(), required: q(50_000.0, 500_000.0), observed: rep.counter("itp/runs_with_an_iterate_exactly_on_the_root") as f64 });
+    t.push(Threshold { what: "itp runs whose first secant point is the midpoint (f(a) = -f(b))".into(), required: 40_000.0, observed: rep.counter("itp/runs_with_f(a)=-f(b)") as f64 });
+    t.push(Threshold { what: "exact-hit grid problems (complete grid)".into(), required: q(22_880.0, 2.0 * 110.0 * 120.0 * 8.0), observed: rep.counter("exact_hit/problems") as f64 });
+    t.push(Threshold { what: "random problems with a decreasing function".into(), required: q(15_000.0, 150_000.0), observed: rep.counter("problems/decreasing") as f64 });
+    t.push(Threshold { what: "random problems with the bracket near +-100".into(), required: q(10_000.0, 100_000.0), observed: rep.counter("problems/bracket_near_+-100") as f64 });
+    t.push(Threshold { what: "random problems with the bracket given in descending order".into(), required: q(25_000.0, 250_000.0), observed: rep.counter("problems/bracket_given_in_descending_order") as f64 });
+    t.push(Threshold { what: "random problems with a root at an end point".into(), required: q(2_500.0, 25_000.0), observed: rep.counter("problems/root_at_an_end_point") as f64 });
+    t
 }
